@@ -115,13 +115,13 @@ func (x *ctx) invoke(st *state, fr *frame, recv val, m *types.Func, args []val, 
 		return x.contractCall(st, fr, con, nil, append([]val{recv}, args...), rt)
 	}
 	// interfaces without contract: user-callback rule
-	return x.userCallback(st, fr, "invoke:"+m.FullName(), m.Name(), rt)
+	return x.userCallback(st, fr, "invoke:"+m.FullName(), m.Name(), rt, args...)
 }
 
 func (x *ctx) invokeModKeys(c *ssa.CallCommon) ([]string, bool) { return nil, false }
 
 // userCallback: arbitrary result, heap unchanged, may panic (when the contract asks for panic paths).
-func (x *ctx) userCallback(st *state, fr *frame, what, short string, rt types.Type) []outcome {
+func (x *ctx) userCallback(st *state, fr *frame, what, short string, rt types.Type, args ...val) []outcome {
 	x.assumed["A-callbacks: "+what+" returns an arbitrary result, does not re-enter the cache"] = true
 	var ret val
 	if rt != nil {
@@ -135,6 +135,22 @@ func (x *ctx) userCallback(st *state, fr *frame, what, short string, rt types.Ty
 		x.ghostWrite(st, "ghost_calls_"+short, nil, x.binop(token.ADD, cnt, mkbv(1, 64), types.Typ[types.Int]))
 		if ret.t.s != "" {
 			x.ghostWrite(st, "ghost_ret_"+short, nil, ret.t)
+		} else if ret.agg && len(ret.fields) <= 4 {
+			for i, f := range ret.fields {
+				if f.t.s != "" {
+					x.ghostWrite(st, fmt.Sprintf("ghost_ret_%s_%d", short, i), nil, f.t)
+				}
+			}
+		}
+		var leaves []term
+		okL := true
+		for _, a := range args {
+			flattenPlain(a, &leaves, &okL)
+		}
+		if okL && len(leaves) <= 8 {
+			for i, l := range leaves {
+				x.ghostWrite(st, fmt.Sprintf("ghost_arg_%s_%d", short, i), nil, l)
+			}
 		}
 	}
 	outs := []outcome{{st: st, ret: ret}}
@@ -163,7 +179,7 @@ func (x *ctx) unknownCall(st *state, fr *frame, fnv val, args []val, c *ssa.Call
 	if what == "" {
 		what = "function value"
 		if c != nil {
-			what = "function value " + c.Value.Name()
+			what = "function value " + sourceName(c.Value)
 		}
 	}
 	if x.w.fieldCallHook != nil {
@@ -178,7 +194,7 @@ func (x *ctx) unknownCall(st *state, fr *frame, fnv val, args []val, c *ssa.Call
 	if strings.Contains(short, " ") {
 		short = short[strings.LastIndex(short, " ")+1:]
 	}
-	return x.userCallback(st, fr, what, short, rt)
+	return x.userCallback(st, fr, what, short, rt, args...)
 }
 
 // ---------------------------------------------------------------- external functions
@@ -430,7 +446,10 @@ func (x *ctx) interfere(st *state) {
 }
 
 func (x *ctx) tblSorts(callee *ssa.Function) (ks srtT, keyT types.Type, valT types.Type) {
-	// Map[K, V, N]: receiver type arguments
+	// Map[K, V, N]: receiver type arguments (of the instantiated method when known)
+	if x.lastInst != nil && x.lastInst.Origin() == callee && x.lastInst.Signature.Recv() != nil {
+		callee = x.lastInst
+	}
 	rt := deref(callee.Signature.Recv().Type()).(*types.Named)
 	targs := rt.TypeArgs()
 	keyT = targs.At(0)
@@ -439,8 +458,15 @@ func (x *ctx) tblSorts(callee *ssa.Function) (ks srtT, keyT types.Type, valT typ
 	return
 }
 
-func (x *ctx) tblGet(st *state, m, k term) term {
-	return x.ghostGet(st, "ghost_tbl", []srtT{sRef, k.srt}, sRef, []term{m, k})
+func (x *ctx) tblName(valT types.Type) string {
+	if _, ok := valT.Underlying().(*types.Pointer); ok {
+		return "ghost_calls"
+	}
+	return "ghost_tbl"
+}
+
+func (x *ctx) tblGet(st *state, m, k term, valT types.Type) term {
+	return x.ghostGet(st, x.tblName(valT), []srtT{sRef, k.srt}, sRef, []term{m, k})
 }
 
 // tblWF: a stored entry carries its key.
@@ -465,9 +491,11 @@ func (x *ctx) tableModel(st *state, fr *frame, op string, callee *ssa.Function, 
 	case "Get":
 		k := x.asTerm(args[1], callee.Signature.Params().At(0).Type())
 		x.interfere(st)
-		r := x.tblGet(st, m, k)
+		r := x.tblGet(st, m, k, valT)
 		st.define(x.tblWF(st, r, k, valT))
-		x.lpRecord(st, m, "get")
+		if x.tblName(valT) == "ghost_tbl" {
+			st.snaps["lp"] = st.clone()
+		}
 		out := st
 		x.interfere(out)
 		return x.ret1(out, scalar(r))
@@ -478,9 +506,12 @@ func (x *ctx) tableModel(st *state, fr *frame, op string, callee *ssa.Function, 
 	case "Compute":
 		k := x.asTerm(args[1], callee.Signature.Params().At(0).Type())
 		x.interfere(st)
-		cur := x.tblGet(st, m, k)
+		cur := x.tblGet(st, m, k, valT)
 		st.define(x.tblWF(st, cur, k, valT))
-		st.snaps["lp"] = st.clone()
+		isNodeTbl := x.tblName(valT) == "ghost_tbl"
+		if isNodeTbl {
+			st.snaps["lp"] = st.clone()
+		}
 		outs := x.callValue(st, fr, args[2], []val{scalar(cur)}, nil, nil)
 		var res []outcome
 		for _, o := range outs {
@@ -490,7 +521,7 @@ func (x *ctx) tableModel(st *state, fr *frame, op string, callee *ssa.Function, 
 			}
 			nv := x.asTerm(o.ret, valT)
 			x.oblige(o.st, "table-key-wf", "", "Compute", x.tblWF(o.st, nv, k, valT), "a stored entry must carry the key it is stored under")
-			x.ghostWrite(o.st, "ghost_tbl", []term{m, k}, nv)
+			x.ghostWrite(o.st, x.tblName(valT), []term{m, k}, nv)
 			x.ghostWrite(o.st, "ghost_lpCur", []term{m}, cur)
 			x.ghostWrite(o.st, "ghost_lpNew", []term{m}, nv)
 			cnt := x.ghostGet(o.st, "ghost_lpCount", []srtT{sRef}, bvSort(64), []term{m})
@@ -510,7 +541,7 @@ func (x *ctx) tableModel(st *state, fr *frame, op string, callee *ssa.Function, 
 		st.define(not(eq(n, null)))
 		if x.mode != "itf" {
 			ks, _, _ := x.tblSorts(callee)
-			st.define(eq(x.tblGet(st, m, x.entryKey(st, n, ks, valT)), n))
+			st.define(eq(x.tblGet(st, m, x.entryKey(st, n, ks, valT), valT), n))
 		}
 		st.sig = append(st.sig, "range:1")
 		outs := x.callValue(st, fr, args[1], []val{scalar(n)}, nil, types.Typ[types.Bool])
@@ -657,4 +688,25 @@ func (x *ctx) chanSend(st *state, fr *frame, in *ssa.Send) {
 	ch := x.get(fr, st, in.Chan).t
 	cnt := x.ghostGet(st, "ghost_chanSent", []srtT{sRef}, bvSort(64), []term{ch})
 	x.ghostWrite(st, "ghost_chanSent", []term{ch}, x.binop(token.ADD, cnt, mkbv(1, 64), types.Typ[types.Int]))
+}
+
+// sourceName recovers the source-level name of a function-typed value (parameter, captured variable).
+func sourceName(v ssa.Value) string {
+	switch t := v.(type) {
+	case *ssa.UnOp:
+		return sourceName(t.X)
+	case *ssa.FreeVar:
+		return t.Name()
+	case *ssa.Alloc:
+		if t.Comment != "" {
+			return t.Comment
+		}
+	case *ssa.Parameter:
+		return t.Name()
+	case *ssa.Phi:
+		if t.Comment != "" {
+			return t.Comment
+		}
+	}
+	return v.Name()
 }
